@@ -249,6 +249,8 @@ ALL_TV = [("TimeStamp", 0), ("TimeInterval", 0), ("Point", 0), ("BoundingBox", 0
           ("MultiLineString", 0), ("MultiLineString", 1), ("MultiPolygon", 0), ("MultiPolygon", 1)]
 QUICK_TV = [("TimeStamp", 0), ("TimeInterval", 0), ("Point", 0), ("BoundingBox", 0), ("LineString", 0),
             ("Polygon", 0), ("MultiPoint", 1), ("MultiLineString", 0), ("MultiPolygon", 0)]
+# shapes whose extreme coordinate can sit at an interior vertex / in a second part: features in the quick tier too
+QUICK_FEATURES = [("LineString", 1), ("MultiLineString", 1), ("MultiPolygon", 1)]
 
 
 def plan():
@@ -261,8 +263,8 @@ def plan():
         if (tag, variant) in (("Point", 0), ("MultiPoint", 0)):
             tw = ("degenerate",)
         obs.append(Ob("bounds-" + nm, ob_bounds, "ieee", 300, dict(tag=tag, variant=variant), tiers, twins=tw))
-        obs.append(Ob("features-" + nm, ob_features, "real", 300, dict(tag=tag, variant=variant), tiers,
-                      twins=("any",)))
+        obs.append(Ob("features-" + nm, ob_features, "real", 300, dict(tag=tag, variant=variant),
+                      q if (tag, variant) in QUICK_FEATURES else tiers, twins=("any",)))
         for pos in CORNERS:
             tq = tiers if pos in ("bottom-left", "top-right") or variant == 0 and tag in ("BoundingBox", "LineString") else ("thorough",)
             obs.append(Ob("pos-%s-%s" % (pos, nm), ob_position, "ieee", 300,
